@@ -88,15 +88,30 @@ func GenStream(key uint64, n int) []byte { return NewGen(key).Bytes(n) }
 // ---------------------------------------------------------------------------
 // networking helpers
 
-// FreePort returns a currently free loopback TCP port.
+var (
+	usedPortsMu sync.Mutex
+	usedPorts   = map[int]bool{}
+)
+
+// FreePort returns a currently free loopback TCP port that this lab process
+// has not handed out before (a refused gateway must not be mistaken for
+// another gateway that later got the same port).
 func FreePort() int {
-	l, err := net.Listen("tcp", "127.0.0.1:0")
-	if err != nil {
-		panic(err)
+	for {
+		l, err := net.Listen("tcp", "127.0.0.1:0")
+		if err != nil {
+			panic(err)
+		}
+		p := l.Addr().(*net.TCPAddr).Port
+		usedPortsMu.Lock()
+		dup := usedPorts[p]
+		usedPorts[p] = true
+		usedPortsMu.Unlock()
+		l.Close()
+		if !dup {
+			return p
+		}
 	}
-	p := l.Addr().(*net.TCPAddr).Port
-	l.Close()
-	return p
 }
 
 // DialFrom dials addr from the given local IP ("" = default).
